@@ -52,12 +52,14 @@ def canon(v, depth=0, seen=None):
     return ("obj", type(v).__name__)
 
 
-def run(code, mode):
+def run(code, mode, prelude=None):
     g = {"__name__": "__replay__"}
     buf = io.StringIO()
     err = None
     try:
         with contextlib.redirect_stdout(buf):
+            if prelude:
+                exec(compile(prelude, "<prelude>", "exec"), g)  # noqa: S102  (never converted)
             if mode == "exec":
                 exec(compile(code, "<original>", "exec"), g)  # noqa: S102
             else:
@@ -78,7 +80,7 @@ def user_globals(g, names=None):
     return out
 
 
-def replay_source(src, expect="same-globals", names=None, opts=None):
+def replay_source(src, expect="same-globals", names=None, opts=None, prelude=None):
     """-> dict(reproduced=bool, ...).  expect: 'same-globals' | 'SyntaxError' | 'raises' | 'compiles'"""
     ol = extract.repo_module("oneliner")
     results = []
@@ -106,8 +108,8 @@ def replay_source(src, expect="same-globals", names=None, opts=None):
             return dict(reproduced=True, source=src, options=tag, expected="output compiles in eval mode", observed=f"SyntaxError: {e.msg}", output=out[:800])
         if expect == "compiles":
             continue
-        g0, o0, e0 = run(src, "exec")
-        g1, o1, e1 = run(out, "eval")
+        g0, o0, e0 = run(src, "exec", prelude)
+        g1, o1, e1 = run(out, "eval", prelude)
         if e0 is not None:
             return dict(reproduced=False, note=f"original program itself fails: {e0}", source=src)
         a, b = user_globals(g0, names), user_globals(g1, names)
